@@ -31,7 +31,7 @@ RULE = (
     "(replica, op kind, fault kind, graph shape class); non-trivial = at least one reorder/duplicate fault fired and >=2 replicas"
 )
 STATE_MEASURE = "(layer, #nodes, tree|cyclic, canonical degree sequence, #dups) for abstract; (layer, multiset of frame kinds, #replicas) for frames"
-PROBES = ["origin_checked", "route_replaced_by_shorter", "dup_link_delivered", "query_on_partial_graph", "disconnected_pair_reported", "builtin_graph_replayed", "frames_convergence_checked", "two_hop_oracle_checked"]
+PROBES = ["origin_checked", "route_replaced_by_shorter", "dup_link_delivered", "query_on_partial_graph", "disconnected_pair_reported", "builtin_graph_replayed", "frames_convergence_checked", "two_hop_oracle_checked", "frame_of_a_derived_orbit"]
 REAL_VS_STUB = "real: beyond.utils.node.Node, frames/center/orient/stations registries, propagators; stub: none (EOP = zeros by policy 'pass'); model: BFS on explicit adjacency, two-hop composition through pristine nodes"
 ASSUMPTIONS = ["tree space on 8 nodes is sampled, not enumerated (thorough tier additionally sweeps all labelled trees on <=5 nodes with all orders)", "numpy/sgp4 are trusted"]
 SAMPLED_ONLY = []
@@ -193,6 +193,14 @@ def _gen_frames(rng):
             if ufr and msg["orient"] and "cart" not in msg and msg["frame"] in _INERTIAL and rng.random() < 0.5:
                 msg["parent"] = rng.choice(ufr)
                 msg["deps"] = list(msg.get("deps", [])) + [msg["parent"]]
+            # an orbit derived from one that already gave its name to a frame (a copy of it, moved): a frame of its own under a new name
+            bases = [m for m in msgs if m["op"] == "orbframe" and m.get("src") != "ephem" and not m.get("derive")]
+            if bases and rng.random() < 0.3:
+                b = rng.choice(bases)
+                msg = {"op": "orbframe", "name": msg["name"], "orient": rng.choice([None, None, "QSW", "TNW"]), "parent": b["parent"], "frame": b["frame"], "kep": b["kep"], "src": b["src"], "derive": b["name"], "deps": list(b.get("deps", [])) + [b["name"]]}
+                if b.get("cart") is not None:
+                    msg["cart"] = b["cart"]
+                    msg["orient"] = None
             msgs.append(msg)
     names = [m["name"] for m in msgs]
     per_rep = []
@@ -510,8 +518,20 @@ def _mk_date(node, mjd):
     return node.Date(float(mjd), scale="UTC")
 
 
-def _ref_object(node, msg, kn):
-    """The reference object (orbit, ephemeris or static state) an orbit-attached frame is built from."""
+def _ref_object(node, msg, kn, refs=None, lookup=None):
+    """The reference object (orbit, ephemeris or static state) an orbit-attached frame is built from.  With "derive" it is a moved
+    copy of the object that was registered under that name on this node (refs), built afresh when the node never saw it."""
+    if msg.get("derive"):
+        base = (refs or {}).get(msg["derive"])
+        if base is None:
+            base = _ref_object(node, dict((lookup or {}).get(msg["derive"], {k: v for k, v in msg.items() if k != "derive"}), derive=None), kn)
+        new = base.copy()
+        if new.form.name == "keplerian":
+            new[0] = float(new[0]) * 1.03
+            new[4] = float(new[4]) + 0.1
+        else:
+            new[:3] = np.array(new[:3], dtype=float) * 1.01
+        return new
     date = _mk_date(node, kn["date_mjd"])
     Kepler = node.mod("beyond.propagators.kepler").Kepler
     if msg.get("cart") is not None:
@@ -525,8 +545,9 @@ def _ref_object(node, msg, kn):
     return orb
 
 
-def _register(node, msg, kn):
-    """Deliver one registration message on a node (inside `with node`)."""
+def _register(node, msg, kn, refs=None, lookup=None):
+    """Deliver one registration message on a node (inside `with node`).  refs keeps the reference objects handed to orbit2frame, by
+    frame name (a caller keeps its orbits)."""
     if msg["op"] == "station":
         st = node.mod("beyond.frames.stations")
         parent = node.frames.get_frame(msg["parent"])
@@ -539,7 +560,9 @@ def _register(node, msg, kn):
         center = node.mod("beyond.frames.center")
         return node.frames.Frame(msg["name"], getattr(orient, msg["orient"]), center.Earth)
     if msg["op"] == "orbframe":
-        ref = _ref_object(node, msg, kn)
+        ref = _ref_object(node, msg, kn, refs, lookup)
+        if refs is not None:
+            refs[msg["name"]] = ref
         kw = {"parent": node.frames.get_frame(msg["parent"])}
         if msg["orient"]:
             kw["orientation"] = msg["orient"]
@@ -562,6 +585,7 @@ def _run_frames(plan, ctx):
         with n:
             n.config.update({"eop": {"missing_policy": "pass"}})
     registered = [[] for _ in range(nrep)]  # names, in delivery order
+    refs = [dict() for _ in range(nrep)]  # reference objects handed to orbit2frame, by frame name
     msgs_by_name = {}
     memo = [dict() for _ in range(nrep)]  # (src,dst) -> bytes of first result
     kinds = []
@@ -601,7 +625,7 @@ def _run_frames(plan, ctx):
                 conv(r, a, b, "pre-registration snapshot")
             with nodes[r]:
                 try:
-                    _register(nodes[r], o, kn)
+                    _register(nodes[r], o, kn, refs[r], msgs_by_name)
                 except Exception as e:
                     ctx.violate("valid-chain", {"kind": "registration_failed", "layer": "frames", "op": o["op"]}, f"rep {r}: registering {o} raised {type(e).__name__}: {e}")
                     continue
@@ -620,7 +644,9 @@ def _run_frames(plan, ctx):
                 ctx.checks += 1
                 ctx.probe("origin_checked")
                 with nodes[r]:
-                    ref = _ref_object(nodes[r], o, kn)
+                    ref = refs[r].get(o["name"]) if o.get("derive") else _ref_object(nodes[r], o, kn)
+                    if o.get("derive"):
+                        ctx.probe("frame_of_a_derived_orbit")
                     date = _mk_date(nodes[r], kn["date_mjd"])
                     st = ref.propagate(date) if hasattr(ref, "propagate") else ref
                     try:
@@ -697,11 +723,13 @@ def _run_frames(plan, ctx):
                 with n:
                     n.config.update({"eop": {"missing_policy": "pass"}})
 
+                    prefs = {}
+
                     def reg(nm):
                         if nm in msgs_by_name:
                             for d in msgs_by_name[nm].get("deps", []):
                                 reg(d)
-                            _register(n, msgs_by_name[nm], kn)
+                            _register(n, msgs_by_name[nm], kn, prefs, msgs_by_name)
 
                     reg(name)
                 oracle[name] = n
